@@ -10,6 +10,12 @@ pub fn verif_dir() -> PathBuf {
         .unwrap_or_else(|_| PathBuf::from("/verif"))
 }
 
+/// Where evidence and replay files go (tools that run checks against a seeded tree redirect
+/// them, so that /verif/evidence only ever describes the unchanged tree).
+pub fn out_dir() -> PathBuf {
+    std::env::var("TCSS_OUT_DIR").map(PathBuf::from).unwrap_or_else(|_| verif_dir())
+}
+
 pub fn seed() -> u64 {
     std::env::var("VERIF_SEED")
         .ok()
@@ -82,7 +88,7 @@ impl Report {
     pub fn finish(mut self) -> i32 {
         let vdir = verif_dir();
         let known = load_known(&vdir);
-        let replay_dir = vdir.join("replays");
+        let replay_dir = out_dir().join("replays");
         let _ = std::fs::create_dir_all(&replay_dir);
         let mut new_violations = 0;
         let mut known_hits: Vec<String> = vec![];
@@ -149,7 +155,7 @@ impl Report {
             "wall_s": wall,
             "violations": new_violations,
         });
-        let evdir = vdir.join("evidence");
+        let evdir = out_dir().join("evidence");
         let _ = std::fs::create_dir_all(&evdir);
         let evpath = evdir.join(format!("{}.json", self.property));
         std::fs::write(&evpath, serde_json::to_string_pretty(&ev).unwrap())
